@@ -45,12 +45,15 @@ class EngineError(Exception):
 
 
 class Engine:
-    def __init__(self, exe):
+    def __init__(self, exe, vclock=True):
         # hook H1 (TEXEL_VERIF builds): the engine's clock is driven by searched nodes (100 per ms),
         # so time-limited prior searches (movetime, clocks, ponderhit) do the same work on every run
         # and under any machine load; only `stop` after `go infinite` / `go ponder` stays wall-clock
         env = dict(os.environ)
-        env.setdefault("TEXEL_VERIF_VCLOCK", "100")
+        if vclock:
+            env.setdefault("TEXEL_VERIF_VCLOCK", "100")
+        else:
+            env.pop("TEXEL_VERIF_VCLOCK", None)
         self.p = subprocess.Popen([exe], stdin=subprocess.PIPE, stdout=subprocess.PIPE,
                                   stderr=subprocess.PIPE, bufsize=0, env=env)
         self.buf = b""
@@ -151,7 +154,11 @@ def canonicalise(lines):
 def run_session(exe, steps, search_timeout=120):
     """Run the steps in one engine process; return list of canonicalised outputs of the probe
     searches (in order)."""
-    eng = Engine(exe)
+    # throttled searches (MaxNPS, UCI_LimitStrength) sleep in real time until nodes/time drops below
+    # the limit: under the node-driven clock that never happens, so such sessions use the wall clock
+    throttled = any(st["k"] == "opt" and ((st["name"] == "MaxNPS" and st["value"] != "0") or
+                                          (st["name"] == "UCI_LimitStrength" and st["value"] == "true")) for st in steps)
+    eng = Engine(exe, vclock=not throttled)
     probes = []
     cur = None
     try:
